@@ -358,7 +358,8 @@ def rule_G1(ctx):
         r.ok(first)
     sets = [n for n in own_walk(f.node) if isinstance(n, ast.Call) and isinstance(n.func, ast.Name) and n.func.id == 'setattr']
     loops = [n for n in own_walk(f.node) if isinstance(n, ast.For)]
-    if len(sets) != 1 or len(loops) != 2:
+    want_loops = 1 if getattr(m, 'switch_rows', None) is not None else 2        # flat rows need one loop, nested tables two
+    if len(sets) != 1 or len(loops) != want_loops:
         raise AnalysisError('Options.set_lsb0: installation loop not recognised (needs a human)')
     for lp in loops:
         for x in ast.walk(lp):
